@@ -345,8 +345,6 @@ impl<Db: Database> InternalStorage<Db> {
                         time_updated: next_epoch,
                         value: Box::new(source),
                     };
-                } else {
-                    source_node.time_updated = self.current_epoch;
                 }
             }
             Entry::Vacant(vacant_entry) => {
